@@ -82,12 +82,20 @@ const ASCII_WORDS: &[&str] = &[
 ];
 const MULTI: &[&str] = &["é", "→", "😀", "ü", "中"];
 
+/// 8-20 KiB texts are only generated for the monitors that do not build
+/// per-character attribution tables (C01, C07, C17, C19 switch this on).
+pub static HUGE_TEXTS: std::sync::atomic::AtomicBool = std::sync::atomic::AtomicBool::new(false);
+
 pub fn gen_text(rng: &mut Rng, max_len: usize, ascii: bool) -> String {
   // rare size / alignment classes that small random texts never reach
   if max_len >= 12 {
-    match rng.below(60) {
+    match rng.below(90) {
       0 => return gen_long_line_text(rng, ascii),
       1 => return gen_text_inner(rng, max_len, ascii).replace('\n', "\r\n"),
+      2 => return gen_many_lines_text(rng, ascii),
+      3 if HUGE_TEXTS.load(std::sync::atomic::Ordering::Relaxed) && rng.chance(1, 3) => {
+        return gen_huge_text(rng, ascii)
+      }
       _ => {}
     }
   }
@@ -111,6 +119,50 @@ fn gen_long_line_text(rng: &mut Rng, ascii: bool) -> String {
     }
     if l + 1 < lines || rng.chance(1, 2) {
       s.push('\n');
+    }
+  }
+  s
+}
+
+/// 70-400 short lines (line numbers beyond 64 / 128: encoder line gaps,
+/// multi-digit line deltas), some of them empty.
+fn gen_many_lines_text(rng: &mut Rng, ascii: bool) -> String {
+  let n = *rng.pick(&[70usize, 130, 200, 400]);
+  let mut s = String::new();
+  for _ in 0..n {
+    match rng.below(6) {
+      0 => {}
+      1 => s.push_str(*rng.pick(ASCII_WORDS)),
+      _ => {
+        for _ in 0..rng.range(1, 3) {
+          s.push_str(*rng.pick(ASCII_WORDS));
+          s.push(*rng.pick(&[';', ' ', '{', '}', '=']));
+        }
+        if !ascii && rng.chance(1, 30) {
+          s.push_str(*rng.pick(MULTI));
+        }
+      }
+    }
+    s.push('\n');
+  }
+  if rng.chance(1, 2) {
+    s.push_str("end");
+  }
+  s
+}
+
+/// 8-20 KiB of text (size thresholds of buffers / fast paths).
+fn gen_huge_text(rng: &mut Rng, ascii: bool) -> String {
+  let target = *rng.pick(&[8192usize, 8200, 10000, 20000]);
+  let mut s = String::with_capacity(target + 16);
+  while s.len() < target {
+    s.push_str(*rng.pick(ASCII_WORDS));
+    match rng.below(12) {
+      0 => s.push('\n'),
+      1 => s.push(';'),
+      2 => s.push(' '),
+      3 if !ascii => s.push_str(*rng.pick(MULTI)),
+      _ => {}
     }
   }
   s
@@ -203,7 +255,7 @@ pub fn new_pool(rng: &mut Rng, cfg: &GenCfg) -> Pool {
   let originals = (0..n)
     .map(|i| {
       (
-        format!("{}.js", ["a", "b", "c"][i]),
+        ["a.js", "src/b.js", "lib\\c.js"][i].to_string(),
         gen_text(rng, cfg.max_text, cfg.ascii),
       )
     })
@@ -290,7 +342,12 @@ pub fn gen_consistent_map(
     }
     let gl = li as u32 + 1;
     let mut cols: Vec<u32> = Vec::new();
-    let k = rng.range(1, 4);
+    // long lines sometimes get many segments (lookup tables / searches beyond small sizes)
+    let k = if *len > 70 && rng.chance(1, 2) {
+      rng.range(65, 140).min(*len)
+    } else {
+      rng.range(1, 4)
+    };
     for _ in 0..k {
       let c = if rng.chance(1, 3) {
         0
@@ -558,6 +615,7 @@ pub fn gen_ops(rng: &mut Rng, inner: &str, cfg: &GenCfg, pool: &Pool) -> Vec<Op>
       name,
       enforce,
       plain_api: rng.chance(2, 3),
+      observe_before: rng.chance(1, 8),
     });
   }
   ops
